@@ -327,7 +327,17 @@ func needQuoted(a Atom) bool {
 }
 
 func quote(s string) string {
-	return fmt.Sprintf("'%s'", quotedAtomEscapePattern.ReplaceAllStringFunc(s, quotedIdentEscape))
+	var sb strings.Builder
+	_, _ = sb.WriteString("'")
+	for _, r := range s {
+		if isSingleQuotedCharacter(r) && r != '\\' {
+			_, _ = sb.WriteRune(r)
+			continue
+		}
+		_, _ = sb.WriteString(quotedIdentEscape(string(r)))
+	}
+	_, _ = sb.WriteString("'")
+	return sb.String()
 }
 
 func quotedIdentEscape(s string) string {
